@@ -130,9 +130,13 @@ func (w *writer) Message() MessageWriter {
 
 // Free frees the writer and releases its internal resources.
 func (w *writer) Free() {
-	w.close()
+	if w.writerState == nil {
+		return // already released, after an error or a previous free
+	}
+	owned := !w.releaseState && !w.releaseWriter
 
-	if !w.releaseState && !w.releaseWriter {
+	w.close()
+	if owned {
 		w.free()
 	}
 }
